@@ -57,7 +57,7 @@ func checkC11(c *Ctx) {
 	c.Explanation = `R11.1 variable bindings: the paths of Config.ParseTemplates up to the TemplateData literal are enumerated; on every path each documented variable must originate from its documented source - InterfaceName/InterfaceFile from the interface's Name/FileName, InterfaceDir from the parent directory of FileName, Mock = "Mock"/"mock" selected by go/ast.IsExported(interface name) (empty without an interface), SrcPackageName/SrcPackagePath from the source package's types Name()/Path(), StructName/Template from the config's own values, ConfigDir from filepath.Dir of the config-file parameter, InterfaceDirRelative from InterfaceDir made relative (fallback "."); NewRootConfig records the path of the config file actually loaded in that parameter before the levels are initialised;
 R11.2 exactly dir, filename, pkgname, structname and template-schema are rendered, each label paired with the Config field carrying that koanf tag;
 R11.3 termination and fixpoint: the rendering loop continues while a value changed, resets the flag at the top of each pass, sets it only under 'new value != value before rendering', and its pass counter is compared with a constant cap whose arm returns ErrInfiniteLoop from inside the loop; parse/execute errors are returned; there is no exit that keeps a half-rendered value silently;
-R11.4 config templates and mock templates are both created with Funcs(template_funcs.FuncMap).`
+R11.4 config templates and mock templates are both created with Funcs(template_funcs.FuncMap), and every FuncMap entry is the documented function (wrapper <-> strings namesake with the subject last; direct entries per the documented table).`
 	c.NotDecided = "what text/template renders for a given expression; working-directory effects; path normalisation."
 	c.Assumptions = []string{"text/template semantics", "go/ast.IsExported implements Go's exportedness rule"}
 	c.Rule("R11.1", 11, "")
@@ -228,6 +228,9 @@ R11.4 config templates and mock templates are both created with Funcs(template_f
 		c.Check(ok, "R11.4", site.pkg+"."+site.fn+"|funcmap", site.pkg, "created with Funcs(template_funcs.FuncMap)", site.pkg+"."+site.fn+" does not install template_funcs.FuncMap: the documented function library is unavailable there")
 	}
 	_ = reflect.TypeOf
+	// the documented function library itself (shared with C16)
+	rf := loadRepo(c, packages.LoadSyntax, "", "./template_funcs")
+	ruleFuncMap(c, rf, "R11.4")
 }
 
 func ruleFixpoint(c *Ctx, r *Repo, cp *packages.Package, fd *ast.FuncDecl) {
